@@ -318,10 +318,21 @@ func (f *FnVC) applyContract(st *State, ct *spec.FuncContract, fn *ssa.Function,
 	}
 	f.calledContracts[ct.Target] = true
 	pre := st.clone()
-	env := &SEnv{f: f, names: map[string]Val{}, cur: st, old: pre, pkg: f.E.pkgOfContract(ct, fn), dyn: map[string]string{}}
+	env := &SEnv{f: f, names: map[string]Val{}, cur: st, old: pre, pkg: f.E.pkgOfContract(ct, fn), dyn: map[string]string{}, cells: map[string]Val{}}
 	for i, n := range names {
 		if i < len(args) {
 			env.names[n] = args[i]
+		}
+	}
+	// closures: the callee's captured variables are the cells bound at MakeClosure
+	if mc, ok := c.Value.(*ssa.MakeClosure); ok && fn != nil {
+		for i, fv := range fn.FreeVars {
+			if i < len(mc.Bindings) {
+				saved := f.curNode
+				cell := f.get(mc.Bindings[i])
+				f.curNode = saved
+				env.cells[fv.Name()] = cell
+			}
 		}
 	}
 	// preconditions
